@@ -12,7 +12,7 @@ RULE = ('downloads to a file path (single and ranged; destination absent or pre-
         'events, then one run per fault in open / each write / close / rename / every request / response body, and one per '
         'cancel point; the destination directory and the bytes under the destination name are inspected at EVERY boundary '
         'event of every thread (all file-system effects go through the hooked OSUtils/file wrappers, so that is every state '
-        'another process could observe) and again once the future is done; non-trivial = at least 5 inspections happened '
+        'another process could observe) and again once the future is done; also base names of 255 / 250 / 246 characters (temporary name derived by truncation); non-trivial = at least 5 inspections happened '
         'and the final-state oracle ran; distinct = (shape incl. fault/cancel site, interleaving signature)')
 ASSUMPTIONS = [
     'torn writes / power loss below the syscall level are not observable',
